@@ -351,6 +351,7 @@ pub fn c08(args: &Args, rep: &mut Report) {
             let a2 = assign.clone();
             // small trees without a bound (all interleavings), larger ones bounded
             let pb = if k <= 3 && set.len() == 1 && s.len <= 4 * 1024 * degree(&s.lname) { None } else if set.len() >= 3 { Some(2) } else { Some(bound) };
+            crate::set_current(&format!("Rust crate, update_with_join {:?} with concurrent nodes {:?}", s, set));
             let body = move || {
                 ctl(|c| {
                     c.assign = a2.clone();
@@ -396,6 +397,7 @@ pub fn c08(args: &Args, rep: &mut Report) {
         c.reset_run();
     });
     rayon_sampling(args, rep);
+    pool_tasks_lane(args, rep, "C08");
     miri_pass(args, rep, "C08");
 }
 
@@ -615,6 +617,7 @@ pub fn c18(args: &Args, rep: &mut Report) {
             }
             let (c2, d2, s2, ln) = (combo.clone(), data.clone(), solo.clone(), lname.clone());
             let bound = if combo.len() == 3 { 2 } else if t { 3 } else { 2 };
+            crate::set_current(&format!("Rust crate at {}, threads running operation sequences {:?} on their own instances", lname, combo));
             let n = crate::explore_iterative(bound, if t { None } else { Some(110) }, 50_000, move || {
                 let mut hs = vec![];
                 for (slot, &w) in c2.iter().enumerate() {
@@ -686,6 +689,7 @@ pub fn c18(args: &Args, rep: &mut Report) {
         rec(vec![], 0, 2, best, &run_scripted, rep);
     }
     static_scan(rep);
+    pool_tasks_lane(args, rep, "C18");
     miri_pass(args, rep, "C18");
     // (c) sampling: 16 real threads as the very first calls of fresh processes
     let runs = if t { 200 } else { 20 };
@@ -698,6 +702,75 @@ pub fn c18(args: &Args, rep: &mut Report) {
         match st {
             Ok(s) if s.success() => {}
             other => record("fresh-process:result-differs", format!("16 threads started together in a fresh process: run {} failed ({:?})", i, other.map(|s| s.code())), json!({"property": "C18", "engine": "sched/rust", "check": "fresh-process:result-differs"})),
+        }
+    }
+}
+
+/// `--child pooltasks`: several tasks of one rayon pool each drive their own hashers through
+/// update_rayon / update_mmap-free paths at the same time (what a par_iter over files does). Results
+/// must equal single-threaded update; the parent turns "did not finish" into a verdict.
+pub fn pool_tasks_child() {
+    blake3::verif_hooks::set_detect_hook(None);
+    blake3::verif_hooks::set_kernel_hook(None);
+    blake3::verif_hooks::set_kernel_exit_hook(None);
+    blake3::verif_hooks::set_join_hook(None);
+    let data = std::sync::Arc::new(vcommon::stream_b(0x9001, 2 * 1024 * 1024 + 4096));
+    let bad = std::sync::Arc::new(std::sync::atomic::AtomicU64::new(0));
+    for threads in [2usize, 4] {
+        let pool = rayon_core::ThreadPoolBuilder::new().num_threads(threads).build().expect("pool");
+        for round in 0..6usize {
+            pool.scope(|s| {
+                for i in 0..12usize {
+                    let (d, b) = (data.clone(), bad.clone());
+                    s.spawn(move |_| {
+                        let off = 1 + i * 37 + round;
+                        let len = [200 * 1024 + i, 1024 * 1024 + 17 * i, 129 * 1024, 3000, 512 * 1024 + 1][(i + round) % 5];
+                        let key = [i as u8 ^ 0x5a; 32];
+                        let mut a = blake3::Hasher::new_keyed(&key);
+                        a.update(&d[..off]);
+                        a.update_rayon(&d[off..off + len]);
+                        let mut e = blake3::Hasher::new_keyed(&key);
+                        e.update(&d[..off + len]);
+                        if a.finalize() != e.finalize() || a.count() != e.count() {
+                            b.fetch_add(1, Ordering::SeqCst);
+                        }
+                    });
+                }
+            });
+        }
+    }
+    std::process::exit(if bad.load(Ordering::SeqCst) == 0 { 0 } else { 1 });
+}
+
+/// Runs the `pooltasks` child with a wall-clock limit (sampling of real schedules, labelled so).
+pub fn pool_tasks_lane(args: &Args, rep: &mut Report, prop: &str) {
+    let limit = std::time::Duration::from_secs(60);
+    let mut child = match std::process::Command::new(std::env::current_exe().unwrap())
+        .args(["--prop", prop, "--report", "/dev/null", "--child", "pooltasks", "--seed", &args.seed.to_string()])
+        .spawn()
+    {
+        Ok(c) => c,
+        Err(_) => return,
+    };
+    let t0 = std::time::Instant::now();
+    rep.inc("evaluations");
+    rep.inc("pool_task_runs_sampled");
+    loop {
+        match child.try_wait() {
+            Ok(Some(st)) => {
+                if !st.success() {
+                    record("pool-tasks:result-differs", format!("tasks of one rayon pool calling update_rayon on their own hashers at the same time: results differ from update (exit {:?})", st.code()), json!({"property": prop, "engine": "sched/rust", "check": "pool-tasks:result-differs"}));
+                }
+                return;
+            }
+            Ok(None) if t0.elapsed() > limit => {
+                let _ = child.kill();
+                let _ = child.wait();
+                record("pool-tasks:never-finish", format!("tasks of one rayon pool calling update_rayon on their own hashers at the same time did not finish within {} s (deadlock between independent hashers)", limit.as_secs()), json!({"property": prop, "engine": "sched/rust", "check": "pool-tasks:never-finish"}));
+                return;
+            }
+            Ok(None) => std::thread::sleep(std::time::Duration::from_millis(50)),
+            Err(_) => return,
         }
     }
 }
